@@ -387,9 +387,15 @@ pub fn create_child_scope(f: impl FnOnce()) -> NodeHandle {
 pub fn on_cleanup(f: impl FnOnce() + 'static) {
     let root = Root::global();
     if !root.current_node.get().is_null() {
-        root.nodes.borrow_mut()[root.current_node.get()]
-            .cleanups
-            .push(Box::new(f));
+        let mut nodes = root.nodes.borrow_mut();
+        match nodes.get_mut(root.current_node.get()) {
+            Some(node) => node.cleanups.push(Box::new(f)),
+            // The current scope has already been disposed: run the cleanup right away.
+            None => {
+                drop(nodes);
+                untrack_in_scope(f, root);
+            }
+        }
     }
 }
 
